@@ -593,8 +593,23 @@ def _mask_assign(a, mask, val):
     new = ndarray.fresh(a.shape, lambda i: Ite(fm(i), sc, fa(i)), dt)
     a._assign(new)
 
-def _mask_select(a, mask): raise NeedsContract('boolean compaction a[mask]')
-def _mask_select_axis(a, key, p): raise NeedsContract('boolean compaction on one axis')
+def _mask_select_axis(a, key, p):
+    """a[..., mask, ...]: the mask axis must have a small concrete extent; each mask element is decided (forks), which
+    enumerates the emptiness patterns completely"""
+    mask = key[p]
+    if mask.ndim != 1 or not isinstance(mask.shape[0], int) or mask.shape[0] > 12: raise NeedsContract('boolean compaction on an axis of symbolic extent')
+    keep = [j for j in range(mask.shape[0]) if bool(mask.at(j))]
+    basic = [slice(None) if i == p else k for i, k in enumerate(key)]
+    _keep = _KEEP0D[0]; _KEEP0D[0] = True
+    try: base = a[tuple(basic)]
+    finally: _KEEP0D[0] = _keep
+    n_int_before = builtins.sum(1 for k in key[:p] if not isinstance(k, slice) and k is not None and not isinstance(k, ndarray))
+    pos = p - n_int_before; fb = base.snapshot()
+    shape = base.shape[:pos] + (len(keep),) + base.shape[pos + 1:]
+    return ndarray.fresh(shape, lambda i: fb(tuple(i[:pos]) + (keep[i[pos]] if isinstance(i[pos], int) else _pick_list(keep, i[pos]),) + tuple(i[pos + 1:])), a.dtype)
+def _mask_select(a, mask):
+    if a.ndim == 1: return _mask_select_axis(a, [mask], 0)
+    raise NeedsContract('boolean compaction a[mask] of rank > 1')
 
 # --------------------------------------------------------------------------- reshape
 def _prod(sh):
@@ -614,6 +629,7 @@ def _reshape(a, shape, copy=False):
             shape[neg[0]] = total // rest
         else:
             q = _div_exact(total, rest)
+            if q is None: q = _cancel_dims(list(a.shape), [d for i, d in enumerate(shape) if i != neg[0]])
             if q is None: raise NeedsContract('reshape(-1) with symbolic sizes %s / %s' % (total, rest))
             shape[neg[0]] = q
     else:
@@ -628,10 +644,12 @@ def _reshape(a, shape, copy=False):
     old = a.shape
     # fast path: a common prefix of symbolic/equal leading dims, concrete trailing blocks of equal size
     p = 0
-    while p < builtins.min(len(old), len(shape)) and _same_dim(old[p], shape[p]) and not (isinstance(old[p], int) and False): p += 1
-    # make sure the remaining tails are concrete
-    tail_old, tail_new = old[p:], shape[p:]
+    while p < builtins.min(len(old), len(shape)) and _same_dim(old[p], shape[p]): p += 1
+    q = 0       # common suffix (e.g. a symbolic number of samples kept as last axis)
+    while q < builtins.min(len(old), len(shape)) - p and _same_dim(old[len(old) - 1 - q], shape[len(shape) - 1 - q]) and not isinstance(old[len(old) - 1 - q], int): q += 1
+    tail_old, tail_new = old[p:len(old) - q], shape[p:len(shape) - q]
     if builtins.all(isinstance(d, int) for d in tail_old + tail_new):
+        lo_, ln_ = len(tail_old), len(tail_new)
         so = _strides(tail_old); sn = _strides(tail_new)
         def _unravel(flat, dims, strides):
             rest = []
@@ -641,12 +659,12 @@ def _reshape(a, shape, copy=False):
             return rest
         def fwd(i):
             flat = 0
-            for k, s_ in zip(i[p:], sn): flat = flat + k * s_
-            return tuple(i[:p]) + tuple(_unravel(flat, tail_old, so))
+            for k, s_ in zip(i[p:p + ln_], sn): flat = flat + k * s_
+            return tuple(i[:p]) + tuple(_unravel(flat, tail_old, so)) + tuple(i[p + ln_:])
         def bwd(j):
             flat = 0
-            for k, s_ in zip(j[p:], so): flat = flat + k * s_
-            return tuple(j[:p]) + tuple(_unravel(flat, tail_new, sn))
+            for k, s_ in zip(j[p:p + lo_], so): flat = flat + k * s_
+            return tuple(j[:p]) + tuple(_unravel(flat, tail_new, sn)) + tuple(j[p + lo_:])
         def fn(i): return src(fwd(i))
         st = Storage(fn, memoise=False)
         if not copy:
@@ -687,6 +705,23 @@ def _strides_sym(sh):
     for d in reversed(sh[1:]): s.append(acc); acc *= d
     s.append(acc)
     return list(reversed(s))
+
+def _cancel_dims(have, want):
+    """product(have) / product(want) by cancelling identical symbolic extents and dividing the concrete parts"""
+    have = list(have); cw = 1
+    for d in want:
+        if isinstance(d, int): cw *= d; continue
+        for k, h in enumerate(have):
+            if not isinstance(h, int) and _same_dim(h, d): del have[k]; break
+        else: return None
+    ch = 1; sym = []
+    for h in have:
+        if isinstance(h, int): ch *= h
+        else: sym.append(h)
+    if cw == 0 or ch % cw: return None
+    r = ch // cw
+    for h in sym: r = r * h
+    return r
 
 def _div_exact(total, rest):
     """total / rest when it is syntactically exact (N*c / c', c' | c)"""
@@ -911,7 +946,18 @@ def left_shift(a, b): return _binop(a, b, lambda x, y: x << y, shift=True) if (i
 def add(a, b): return a + b
 def subtract(a, b): return a - b
 def multiply(a, b): return a * b
-def divide(a, b): return a / b
+def divide(a, b, out=None, where=True, dtype=None):
+    r = a / b
+    if where is True and out is None: return r
+    base = out if out is not None else empty_like(r)
+    res = globals()['where'](where, r, base) if False else _where3(where, r, base)
+    if out is not None: out._assign(res); return out
+    return res
+def _where3(c, a, b):
+    c = asarray(c); shape = broadcast_shapes(c.shape, a.shape, b.shape)
+    fc, fa, fb = c.snapshot(), a.snapshot(), b.snapshot(); ic, ia, ib = _bcast_index(c.shape, shape), _bcast_index(a.shape, shape), _bcast_index(b.shape, shape)
+    dt = _rnp.result_type(a.dtype, b.dtype)
+    return ndarray.fresh(shape, lambda i: Ite(fc(ic(i)), core.cast(fa(ia(i)), dt), core.cast(fb(ib(i)), dt)), dt)
 def _float_dt(x, dtype=None):
     if dtype is not None: return _rnp.dtype(dtype)
     d = x.dtype if isinstance(x, ndarray) else (_scalar_dtype(x) or _rnp.dtype('float64'))
@@ -1071,7 +1117,9 @@ def _fold(a, axes, init, op, dt, keepdims=False, sum_like=False):
             def body(r):
                 cur2 = list(cur); cur2[ax] = r
                 return rec(k + 1, cur2)
-            return SUM_HOOK[0](body, n, dt)
+            sres = SUM_HOOK[0](body, n, dt)
+            if dt is not None and _rnp.dtype(dt).kind in 'iu' and isinstance(sres, SFloat): sres = core.int_from_real_sum(sres.v, dt)
+            return sres
         return rec(0, base)
     r = ndarray.fresh(shape, fn, dt if dt is not None else a.dtype)
     if not shape: return r.item()
